@@ -306,3 +306,68 @@ Proof. vm_compute. reflexivity. Qed.
 Example C10_parser_witness_surrogate_repeat :
   repeat_rune 55296 2 = [55296; 55296] /\ repeat_rune_old 55296 2 = [65533; 65533].
 Proof. vm_compute. split; reflexivity. Qed.
+
+(* ---------------- every tree the parser builds is a tree the compile / termination theorems speak about ---------------- *)
+From Verif Require Import Model.Tree Proofs.SpecTermProofs Proofs.CompileBalDefs Proofs.CompileCapmap Proofs.GMBase
+  Proofs.ParserOkTree Proofs.ParserOkMain Proofs.ParserOkAgree Proofs.ParserOk.
+
+(* Shape, for EVERY option word and every oracle: the second invariant of the main pass (Proofs/ParserOkTree.v wfb,
+   kept by every reducer of tree.go and by every step of scanRegex, Proofs/ParserOkMain.v): leaves have no child, the
+   one-child kinds exactly one, a back-reference conditional 1..2 and an expression conditional 2..3 children (the
+   condition is filed first: ignoreNextParen discipline), every single-character loop and every Loop has
+   0 <= M <= N <= MaxInt32, every Alternate has a child, the body of every Loop runs in one direction (the RightToLeft
+   bit of the option word stamped on the nodes of a group is the group's: scanOptions never touches it, popOptions
+   restores it, only "(?=" "(?!" "(?<=" "(?<!" change it).  This is the statement the per-tree check dir_okb of leg
+   c10-parse could only test (C10_parser_inline_options_keep_direction_partial). *)
+Theorem C10_parsed_tree_shape :
+  forall (is_word_char : Z -> bool) (to_lower simple_fold : Z -> Z) (participates : Z -> bool)
+         (cat_in : Z -> Z -> bool) (cat_name : list Z -> Z) (o : Z) (mco : bool) (p : list Z) (t : rnode) (caps : list Z) (captop : Z),
+    parse is_word_char to_lower simple_fold participates cat_in cat_name o mco p = Ok (PR_Tree t caps captop) ->
+    wfb (fun _ => true) t = true /\ n_t t = T_Capture /\ n_m t = 0 /\ n_n t = -1.
+Proof. exact parsed_tree_shape_root. Qed.
+Print Assumptions C10_parsed_tree_shape.
+
+(* Group numbers: the capture pre-scan (countCaptures) and the main pass agree on which parentheses capture, so every
+   number of a Capture / Ref / BackRefCond node (the popped number of a balancing group too) is a key of RegexTree.Caps.
+   Proof: a lock-step simulation of the two passes on the pattern text (Proofs/ParserOkAgree.v): same option word up to
+   RightToLeft, same option stack, same ignoreNextParen, same automatic number at every round of scanRegex; the scan-only
+   class and escape scanners leave the cursor where the full ones do (up to digits, "\18").
+   Every option word, ECMAScript and RE2 included.  [_partial]: the oracle IsWordChar is false on
+   ! # ' ( ) - < = > ? [ \ and true on the digits 1-9; Captop < MaxInt32.
+   The statement was FALSE before five fixes this proof attempt produced (known_findings: a5090c5 scan-only skip of a
+   subtraction in range position, 4f8aca1 (?P= as a condition, 2b27550 digits as a name under MaintainCaptureOrder,
+   5afce6b digits starting with 0, c605b5f ECMAScript [a-\d]: the scan-only class scanner kept a stale "in range" flag):
+   each gave a Capture outside the table or a malformed conditional and a panic. *)
+Theorem C10_parsed_tree_group_numbers_partial :
+  forall (is_word_char : Z -> bool) (to_lower simple_fold : Z -> Z) (participates : Z -> bool)
+         (cat_in : Z -> Z -> bool) (cat_name : list Z -> Z) (o : Z) (mco : bool) (p : list Z) (t : rnode) (caps : list Z) (captop : Z),
+    (forall c, is_word_char c = true -> negb (zmem c [33; 35; 39; 40; 41; 45; 60; 61; 62; 63; 91; 92]) = true) ->
+    (forall c, (49 <=? c) && (c <=? 57) = true -> is_word_char c = true) ->
+    captop < maxint32 ->
+    parse is_word_char to_lower simple_fold participates cat_in cat_name o mco p = Ok (PR_Tree t caps captop) ->
+    wfb (fun k => zmem k caps) t = true /\ nums_b caps t = true.
+Proof. exact parsed_tree_nums. Qed.
+Print Assumptions C10_parsed_tree_group_numbers_partial.
+
+(* witnesses: the five patterns that broke the statements above before the fixes, on the fixed parser (ASCII oracles) *)
+Definition c10_parse_o (o : Z) (mco : bool) (p : list Z) : res presult :=
+  parse c10_word c10_lower c10_fold (fun _ => true) (fun _ _ => false) (fun _ => -1) o mco p.
+(* the same with the category name "L" known *)
+Definition c10_parse_L (o : Z) (mco : bool) (p : list Z) : res presult :=
+  parse c10_word c10_lower c10_fold (fun _ => true) (fun _ _ => false) (fun s => match s with [76] => 1 | _ => -1 end) o mco p.
+Definition c10_table_ok (r : res presult) (want : list Z) : bool :=
+  match r with Ok (PR_Tree t caps captop) => zlist_eqb caps want && nums_b caps t && wfb (fun k => zmem k caps) t | _ => false end.
+
+(* (?n:[a-[](]])(b) : the pre-scan skips the subtracted class: table {0,1}, (b) is Capture 1
+   (?P<a>x)(?(?P=a)b) under RE2 : ErrUnrecognizedGrouping (39) instead of a conditional without a condition
+   (?<2>x)(?P<2>y)(?<2>z)(w) under RE2 : table {0,1,2}, every number in it
+   (?<x>q)(?<02>b)(a) under RE2 : ErrUnrecognizedGrouping instead of a Capture 3 outside {0,1,2}
+   (?n:[a-\d\PL(])(b) under ECMAScript : the "(" stays inside the class for the pre-scan too: table {0,1} *)
+Example C10_parser_witness_prescan_agrees :
+  c10_table_ok (c10_parse_o 0 false [40; 63; 110; 58; 91; 97; 45; 91; 93; 40; 93; 93; 41; 40; 98; 41]) [0; 1] = true /\
+  c10_parse_o 512 false [40; 63; 80; 60; 97; 62; 120; 41; 40; 63; 40; 63; 80; 61; 97; 41; 98; 41] = Ok (PR_Err 39) /\
+  c10_table_ok (c10_parse_o 512 false [40; 63; 60; 50; 62; 120; 41; 40; 63; 80; 60; 50; 62; 121; 41; 40; 63; 60; 50; 62; 122; 41; 40; 119; 41]) [0; 1; 2] = true /\
+  c10_parse_o 512 false [40; 63; 60; 120; 62; 113; 41; 40; 63; 60; 48; 50; 62; 98; 41; 40; 97; 41] = Ok (PR_Err 39) /\
+  c10_table_ok (c10_parse_o 0 false [40; 63; 60; 61; 97; 40; 63; 60; 110; 62; 98; 41; 42; 41; 92; 107; 60; 110; 62; 40; 63; 40; 110; 41; 99; 124; 100; 41]) [0; 1] = true /\
+  c10_table_ok (c10_parse_L 256 false [40; 63; 110; 58; 91; 97; 45; 92; 100; 92; 80; 76; 40; 93; 41; 40; 98; 41]) [0; 1] = true.
+Proof. vm_compute. repeat split; reflexivity. Qed.
